@@ -50,6 +50,15 @@ Theorem C15_generated_drop_exact : forall ENV b,
   Ret (if l_size (bb_layout b) =? 0 then None else Some (bb_ptr b, bb_layout b)).
 Proof. exact gen_box_bytes_drop_exact. Qed.
 
+Theorem C15_generated_views : forall ENV b p l,
+  Gen.Alloc.box_bytes_deref ENV b = Ret (mkSlice (mkPtr (bb_ptr b) (l_size (bb_layout b))) (l_size (bb_layout b))) /\
+  Gen.Alloc.box_bytes_deref_mut ENV b = Ret (mkSlice (mkPtr (bb_ptr b) (l_size (bb_layout b))) (l_size (bb_layout b))) /\
+  Gen.Alloc.box_bytes_layout ENV b = Ret (bb_layout b) /\
+  Gen.Alloc.box_bytes_into_raw_parts ENV b = Ret (bb_ptr b, bb_layout b) /\
+  Gen.Alloc.box_bytes_from_raw_parts ENV p l = Ret (mkBB p l) /\
+  (x <- Gen.Alloc.box_bytes_into_raw_parts ENV b ;; Gen.Alloc.box_bytes_from_raw_parts ENV (fst x) (snd x)) = Ret b.
+Proof. exact gen_box_bytes_views. Qed.
+
 Example C15_nonvacuous :
   bb_drop (box_bytes_of_slice (mkTy 4 4) (mkCont 64 0 0)) = None /\
   bb_drop (box_bytes_of_slice (mkTy 4 4) (mkCont 64 3 3)) = Some (mkLayout 12 4).
@@ -63,3 +72,4 @@ Print Assumptions C15_roundtrip_sized.
 Print Assumptions C15_roundtrip_slice.
 Print Assumptions C15_generated.
 Print Assumptions C15_generated_drop_exact.
+Print Assumptions C15_generated_views.
